@@ -32,11 +32,11 @@ CLAIMED = {
    technique="deterministic simulation: scripted-environment schedule search over complete training runs, bitwise state-hash frame conditions between events"),
  "C06": dict(level="exploration", engine="TrainSim", design="§4 C06, Appendix A",
    text="Target / online parameter leaves are snapshotted at every env event and logged update of simulated training with tau in {0,0.005,0.3,1} and delays 1-7: scheduled soft updates must satisfy the Polyak recurrence (4e-6 rel., exact for tau 0/1), hard updates bitwise equality (TD7 chain link by link), all other intervals bitwise constancy; no shared nnx.Variable between target and online; twin runs with target updates neutralised (tau=0 / no sync) decide that the update leaves the online networks bit-identical; resume chains decide that the cadence continues from the returned counter.",
-   note="Targets created inside a routine are observable from their first record_epoch. Arbitrary parameter trees / layer types beyond those the routines build are not generated.",
+   note="Plans include supplied targets that differ from the online networks and one-sided target supply (a spurious copy / re-clone is invisible while target == online). Targets created inside a routine are observable from their first record_epoch. Arbitrary parameter trees / layer types beyond those the routines build are not generated.",
    technique="deterministic simulation: scripted-environment schedule search over complete training runs, recurrence and frame oracles on parameter snapshots"),
  "C10": dict(level="exploration", engine="TrainSim", design="§4 C10",
    text="Simulated training of DDPG, TD3, TD3+LAP, TD7, MR.Q, PETS with adversarial Box bounds, noise and noise-clip settings and saturating policies: the environment checks every received action, the target critic's probe yields every smoothed target action (in box, within noise_clip*half-range of the target policy output on the same rows), the PETS reward-model probe yields every CEM candidate; pooled over the tier, standardised un-clipped exploration and target-smoothing perturbations must be standard normal (noise-scale clause).",
-   note="'Any network output however large' and the key-determined form of the noise are pure clauses, not decided. SAC is not in the property's list.",
+   note="Target-action monitor covers TD3, TD3+LAP and TD7; PETS plans include a reward optimum on an action bound with a single CEM iteration. Environment wrappers that change the action space (RescaleAction) are NOT generated (seeded change C10c_1 is missed for that reason). 'Any network output however large' and the key-determined form of the noise are pure clauses, not decided. SAC is not in the property's list.",
    technique="deterministic simulation: scripted-environment schedule search over complete training runs, env-side bound monitor and module probes"),
  "C11": dict(level="exploration", engine="TrainSim + TabularSim + SchedulerSim", design="§4 C11",
    text="Protocol-checking environment (step after episode end, step counts), budgets, episode limits, starting counters, zero budgets and resume chains fed with the returned counter; parameter snapshots at the warm-up boundary; returned counter = start + executed on every exit path; continued long runs (global_step near 250/500/750/1000), restart at 0 with a re-used buffer; multi-task schedulers (train_smt / train_active_mt / train_uts) with a contract-faithful stub backbone and real backbones: per-task totals = executed steps <= budget; task selectors (round robin, four D-UCB strategies, mapb.DUCB) against a float64 discounted-UCB reference; generate_rollout on terminating and truncating episodes.",
@@ -53,7 +53,7 @@ CLAIMED = {
 
  "C15": dict(level="exploration", engine="CheckpointSim + TrainSim", design="§4 C15",
    text="TD7's assessment state machine driven by scripted (episode length, return) histories with the caller-side epoch bookkeeping, against a reference state machine (conservation of released steps, reset, >= vs >, cut-short, single window switch); plus complete train_td7 runs on a scripted environment where released train iterations, 'training steps' records and checkpoint events per iteration are compared with the reference and checkpoint copies with the acting policy.",
-   note="'Crossing the threshold' = epoch_before < threshold <= epoch_after. Episodes ending before learning_starts belong to no window.",
+   note="TD7 plans include runs limited by total_episodes; the checkpoint must equal the actor as of the start of the iteration in which it is replaced (the assessed policy). 'Crossing the threshold' = epoch_before < threshold <= epoch_after. Episodes ending before learning_starts belong to no window.",
    technique="deterministic simulation: scripted outcome histories vs reference state machine; event-log oracle inside simulated training"),
  "C20": dict(level="exploration", engine="LoggerSim", design="§4 C20",
    text="Call histories (start/stop/record_stat/record_epoch/define_*) on MemoryLogger, StandardLogger, OrbaxCheckpointer and LoggerLists of them under a simulated clock with forward and backward jumps, against a list reference: records, locations, counters, member agreement, checkpoint cadence vs floor(step/interval) crossings (Orbax) / every f-th epoch (standard), every listed path restorable to the state hashed at that record. One disk fault kind is injected (the member's checkpointer.save raises ENOSPC once): afterwards every LISTED path must still be restorable.",
